@@ -140,4 +140,56 @@ PROPS = {
     },
 }
 
+AEAD_RULE = ("AES-GCM{16,32}, AES-CTR-HMAC{aes 16,32}×{iv 12..16}×{SHA1..512}×{tag 10..digest}×{hmac key 16..130}, AES-GCM-SIV{16,32}, "
+             "ChaCha20-Poly1305, XChaCha20-Poly1305, XAES-256-GCM{salt 8..12}; TINK/CRUNCHY/RAW; ids incl. 0 and 2^32-1; entry points "
+             "aead.New(handle) and aead/subtle; rejected constructions (24-byte AES keys); pt/ad lengths on block boundaries up to 4 KiB "
+             "(thorough: 256 KiB), ad nil/empty/non-empty; ")
+PROPS["C01"] = {
+    "lean": ["TinkVerif.Props.C01"],
+    "theorems": T("TinkVerif.Aead", "xorBE_involutive xorLE32_involutive blockBE_spec blockLE32_tail Full.decrypt_encrypt Full.layout "
+                  "EtM.decrypt_encrypt EtM.layout GcmSiv.decrypt_encrypt GcmSiv.layout GcmSiv.full_decrypt_encrypt "
+                  "Xaes.decrypt_encrypt xaes_key_derivation envelope_roundtrip"),
+    "harness": [{"name": "c01", "args": ["-mode", "rt"], "pre": True}],
+    "rule": AEAD_RULE + "(a) Go Encrypt → the Lean model re-encrypts with the nonce read from the ciphertext and must reproduce it byte for "
+            "byte, and decrypts it; (b) the Lean model encrypts with a harness-chosen nonce (two-phase run) → Go Decrypt must return the "
+            "plaintext; nil/empty ad cross-checked; non-trivial = every op line, distinct by line hash",
+    "trusted_base": [KERNEL, TIE, PRIMS, "the raw-AEAD law (RawLaw) of stdlib AES-GCM / ChaCha20-Poly1305 is a hypothesis of the framing "
+                     "theorems and is what the correspondence with the reference implementation exercises"],
+    "assumptions": ["AES/SHA/ChaCha/GHASH/POLYVAL are reference primitives (KAT + agreement with Go), not proved",
+                    "math.MaxInt-size limits are not exercised"],
+    "manifest": {
+        "text": "Theorems for every block function / MAC / raw AEAD: decrypt∘encrypt = id and the wire layout prefix‖nonce‖body‖tag for the "
+                "framed AEADs, the AES-CTR+HMAC composition (MAC over ad‖iv‖ct‖be64(8|ad|)), the whole of AES-GCM-SIV (key derivation, "
+                "POLYVAL framing, tag masking, LE32 counter), XAES per-message key derivation, KMS envelope framing; CTR counter facts. "
+                "Tie: byte-identical ciphertexts between tink-go and the Lean model over reference AES/SHA/ChaCha/POLYVAL in both directions.",
+        "design_ref": "DESIGN.md §5.1",
+        "note": "Trusted: Lean kernel; reference primitives; hand models tied by differential execution in both directions.",
+        "technique": "Lean 4 proof (round trip + layout, generic over primitives) + two-way Go/Lean ciphertext correspondence",
+    },
+}
+PROPS["C02"] = {
+    "lean": ["TinkVerif.Props.C01"],
+    "theorems": T("TinkVerif.Aead", "Full.decrypt_iff Full.decrypt_short Full.decrypt_wrong_prefix EtM.decrypt_iff GcmSiv.decrypt_iff "
+                  "envelope_reject"),
+    "harness": [{"name": "c01", "args": ["-mode", "mut"], "pre": True}],
+    "rule": AEAD_RULE + "per valid ciphertext: 10 random mutations (flip/truncate/extend/drop/prefix/random/strip), flips and cuts at "
+            "every field boundary, short random strings of every length up to prefix+nonce+tag+1, other variant's start byte, RAW↔prefixed "
+            "confusion, 5 associated-data mutations; Go and model must agree (reject / plaintext); any acceptance of a mutated input and "
+            "any panic is a property-oracle violation; non-trivial = every op line, distinct by line hash",
+    "trusted_base": [KERNEL, TIE, PRIMS],
+    "assumptions": ["H_mac: beyond the exact characterisation (plaintext is released iff the recomputed tag equals the transmitted tag), "
+                    "rejection of modified inputs rests on the unforgeability of GHASH/Poly1305/HMAC/POLYVAL tags (cryptographic)",
+                    "no-panic on the real code is explored (recover around every call), not proved"],
+    "manifest": {
+        "text": "Theorems: exact acceptance characterisation of Decrypt for the framed AEADs, AES-CTR-HMAC and AES-GCM-SIV (plaintext is "
+                "released iff length ≥ minimum, the prefix matches and the recomputed tag equals the transmitted one), short inputs and wrong "
+                "prefixes rejected, envelope length-field rejections; the model is total (no partial function, every slice guarded). "
+                "Tie: decisions of tink-go and the model agree on a mutation stream over every field and boundary; acceptance of any mutated "
+                "input or a panic is reported as a violation.",
+        "design_ref": "DESIGN.md §5.2",
+        "note": "Trusted: Lean kernel; reference primitives; H_mac is a named cryptographic assumption for the non-exact part.",
+        "technique": "Lean 4 proof (acceptance characterisation) + Go/Lean decision correspondence on mutation streams",
+    },
+}
+
 NOT_BUILT = {}
